@@ -1,5 +1,6 @@
 import Driver.GraphJson
 import SynKitModel.Reactor
+import SynKitModel.ReactorConcrete
 /-! Driver commands of the reactor model (C03; reused by C04/C05).
 
 reactor.glue        {host, tpl, m}            → glued ITS (implicit path)
@@ -12,6 +13,14 @@ reactor.spec        {host, its, tpl, invert}  → {a, imb:[dh,dq,el], timb:[dh,d
 reactor.norm_h      {g}                       → normH g
 reactor.explicit_host {host, nodes}           → host with typesGH defaults and the hydrogens of `nodes` explicit
 reactor.hyps        {host, rc, m}             → {wf_host, wf_tpl, is_mono, round_exact, clash}: the hypotheses of the C03 theorems
+reactor.results     {host, template, invert: bool, strategy: "all"|"comp"|"bt", strict?: bool (true), max_group?: nat (5040),
+                     threshold?: nat (5000)}
+                    → {raw: [mapping…] (a set: sorted), kept: [mapping…] (in the model's order), its: [graph…] (one per kept
+                       mapping, in order), wf_host, wf_tpl: bool}
+                    the COMPOSED reactor of `SynKitModel/ReactorConcrete.lean` (implicit path), i.e. the term
+                    `concrete max_group (compSearch strict threshold)` that `C05.statement_concrete` is about:
+                    raw = `search s host (pattern invert template)`, kept = `Reactor.kept`, its = `Reactor.results`
+                    (nothing is rendered when host or oriented template is not well formed: wf_host / wf_tpl).
 Graphs come back with nodes sorted by id and edges sorted by (min, max) endpoint.
 -/
 open Lean SynKit SynKit.Reactor
@@ -63,6 +72,25 @@ def handle : Driver.Handler := fun cmd j =>
       ("is_mono", toJson (isMonoB monoSel host (left rc) m)),
       ("round_exact", toJson (decide (RoundExact host rc m))),
       ("clash", toJson clash)])
+  | "reactor.results" => some do
+    let host ← Driver.getGraph j "host"
+    let T ← Driver.getGraph j "template"
+    let inv := (Driver.getBool j "invert").toOption.getD false
+    let strict := (Driver.getBool j "strict").toOption.getD true
+    let mg := (Driver.getNat j "max_group").toOption.getD 5040
+    let thr := (Driver.getNat j "threshold").toOption.getD SynKit.SubgraphSearch.DEFAULT_THRESHOLD
+    let s ← match (← Driver.getStr j "strategy") with
+      | "all" => pure SynKit.ReactorInv.Strategy.all
+      | "comp" => pure SynKit.ReactorInv.Strategy.comp
+      | "bt" => pure SynKit.ReactorInv.Strategy.bt
+      | x => throw s!"reactor.results: unknown strategy {x}"
+    let X := SynKit.ReactorInv.theReactor mg strict thr
+    pure (Json.mkObj [
+      ("raw", Driver.mappingsToJson (X.search s host (X.pattern inv T))),
+      ("kept", Json.arr ((X.kept s inv host T).map Driver.mappingToJson).toArray),
+      ("its", Json.arr ((X.results s inv host T).map gj).toArray),
+      ("wf_host", toJson (decide (WFHost host))),
+      ("wf_tpl", toJson (decide (WFTemplate (SynKit.ReactorLink.orient inv T))))])
   | "reactor.spec" => some do
     let host ← Driver.getGraph j "host"
     let its ← Driver.getGraph j "its"
